@@ -52,6 +52,11 @@ var c03DelimPool = []jetrun.Delims{
 	{Left: "[[", Right: "]]", CLeft: "[*", CRight: "*]"},
 	{Left: "${", Right: "}", CLeft: "$*", CRight: "*$"},
 	{CLeft: "<!", CRight: "!>"},
+	// opening and closing marker of different lengths
+	{CLeft: "<!--", CRight: "-->"},
+	{CLeft: "#", CRight: "#/"},
+	{Left: "<%", Right: "%>", CLeft: "<#--", CRight: "--#>"},
+	{Left: "[[", Right: "]", CLeft: "[*", CRight: "*]]"},
 }
 
 func genDelims(t *rapid.T) jetrun.Delims {
@@ -60,8 +65,8 @@ func genDelims(t *rapid.T) jetrun.Delims {
 	}
 	open := []string{"{{", "[[", "<%", "<", "{%", "«", "@@", "${", "[", "<<", "{{{", "%%"}
 	clos := []string{"}}", "]]", "%>", ">", "%}", "»", "@@", "}", "]", ">>", "}}}", "%%"}
-	copen := []string{"{*", "<#", "{#", "@*", "[*", "<!", "#", "{{*"}
-	cclos := []string{"*}", "#>", "#}", "*@", "*]", "!>", "#", "*}}"}
+	copen := []string{"{*", "<#", "{#", "@*", "[*", "<!", "#", "{{*", "<!--", "/+"}
+	cclos := []string{"*}", "#>", "#}", "*@", "*]", "!>", "#", "*}}", "-->", "+/~"}
 	for try := 0; ; try++ {
 		i := rapid.IntRange(0, len(open)-1).Draw(t, "dl")
 		j := rapid.IntRange(0, len(copen)-1).Draw(t, "dc")
